@@ -167,3 +167,27 @@ def conclude(agg):
         if c[f"compared:{s}->{d}"] < need:
             out.append(f"fewer than {need} executed comparisons for {s}->{d} ({c[f'compared:{s}->{d}']})")
     return out
+
+
+def replay(rec):
+    """re-runs the stored SQL text on the stored tables and data"""
+    from ..runner import ReplayCtx
+
+    ctx = ReplayCtx()
+    case = rec["case"]
+    tables = [sqlgen.Table(n, [tuple(c) for c in cols]) for n, cols in case["tables"]]
+    data = {k: [tuple(r) for r in v] for k, v in case["data"].items()}
+
+    class Q:
+        order_total = " ORDER BY " in case["sql"]
+        tags = set()
+
+        def render(self, prof="duckdb", mode="min"):
+            return case["sql"]
+    _replay_case(ctx, Q(), tables, data, case)
+    return ctx.report()
+
+
+def _replay_case(ctx, q, tables, data, case):
+    src, dst = case["pair"]
+    _case(ctx, 1, q, case["sql"], src, dst, tables, data, "min", q.order_total)
